@@ -6,7 +6,7 @@ ST = "verif-stubs/async_backend.py"
 
 def register(R):
     R.module(ST)
-    R.shape("FutureModel", cls="Future", fields={"pending": "bool", "exception_set": "bool", "result_set": "bool", "owner": "none", "member": "bool", "cb": "none"})
+    R.shape("FutureModel", cls="Future", fields={"pending": "bool", "exception_set": "bool", "result_set": "bool", "owner": "none", "member": "bool", "cb": "none", "value": "opt[int]"})
     R.shape("FutureDequeModel", cls="FutureDeque", fields={"n": "int", "pending": "int", "rest": "int", "mine": "none"})
     R.ghost(stranded="int")
     R.shape("EventLoopModel", cls="EventLoop", fields={})
